@@ -66,10 +66,20 @@ class CtorUnit(Unit):
         out = []
         for s, how in sets_offering(self.key):
             for v in self.variants(tier):
-                d = {"set": s, "how": list(how)}
-                d.update(v)
-                out.append(d)
+                for mode in (("modular",) if tier == "quick" else ("modular", "inline")):
+                    d = {"set": s, "how": list(how), "mode": mode}
+                    d.update(v)
+                    out.append(d)
         return out
+
+    def interp_config(self, case):
+        # modular: calls into L0 (encode_dict / decode_bits) are replaced by their contracts (proved by C10);
+        # inline: the real bodies are interpreted all the way down
+        if case.get("mode", "modular") == "modular":
+            from .converter import l0_contracts
+
+            return {"contracts": l0_contracts()}
+        return {}
 
     def case_id(self, case):
         return ",".join("%s=%s" % (k, case[k]) for k in sorted(case) if k != "how")
